@@ -41,7 +41,11 @@ def check(c, item):
     try:
         with warnings.catch_warnings():
             warnings.simplefilter('ignore')
-            m = to_model(sp) if not sp.get('shared_delay_dict') else shared_delay_model(sp)
+            if sp.get('after_failed_create'):
+                from .c14 import failed_create_model
+                m = failed_create_model(sp)       # create_reaction calls that raised in between: the written model is the accepted one
+            else:
+                m = to_model(sp) if not sp.get('shared_delay_dict') else shared_delay_model(sp)
             try:
                 m.write_sbml_model(path, stochastic_model=stochastic)
                 m.write_sbml_model(path2, stochastic_model=stochastic)
@@ -191,8 +195,21 @@ def shared_delay_specs():
     return out
 
 
+def after_failed_specs():
+    from ..nets import spec, ma
+    from ..nets import hill as hill_
+    x0 = {'A': 2.0, 'B': 3.0, 'C': 1.5}
+    out = []
+    for rx in ([ma(['A', 'B'], ['C'], 'kf'), ma(['C'], ['A', 'A'], 0.6), ma(['A', 'A'], ['B'], 0.3)],
+               [dict(ma(['A'], ['B'], 'kf'), delay=dict(type='fixed', delay='tau', reactants=[], products=['C'])), ma(['C'], [], 0.6), hill_('hillnegative', [], ['A'], 'kf', 'KK', 'nn', 'B')]):
+        s_ = spec('massaction/after-failed-create', FAM.SP, x0, rx, FAM.PARAMS)
+        s_['after_failed_create'] = True
+        out.append(s_)
+    return out
+
+
 def run(ctx):
-    specs = FAM.single_reaction_specs(ctx.tier) + FAM.rule_specs(ctx.tier) + FAM.multi_specs(ctx.tier) + shared_delay_specs() + FAM.big_specs(ctx.tier) + FAM.magnitude_specs() + FAM.short_name_specs()
+    specs = FAM.single_reaction_specs(ctx.tier) + FAM.rule_specs(ctx.tier) + FAM.multi_specs(ctx.tier) + shared_delay_specs() + FAM.big_specs(ctx.tier) + FAM.magnitude_specs() + FAM.short_name_specs() + after_failed_specs()
     items = [(s, st) for s in specs for st in (False, True)]
     pmap(check, items, ctx, nshards=256)
     ctx.bounds = dict(models=len(specs), round_trips=len(items))
